@@ -11,6 +11,7 @@ mod native {
             "SpeedLimitTrainSim::set_save_interval" => { o.set_save_interval(a[0].as_u64().map(|x| x as usize)); Ok(Ok(Value::Null)) }
             "SpeedLimitTrainSim::solve_step" => unit(o.solve_step()),
             "SpeedLimitTrainSim::solve_required_pwr" => unit(o.solve_required_pwr()),
+            "SpeedLimitTrainSim::recalc_braking_points" => unit(o.recalc_braking_points()),
             "SpeedLimitTrainSim::step" => unit(o.step()),
             "SpeedLimitTrainSim::get_energy_fuel" => Ok(Ok(json!(o.get_energy_fuel(b(&a[0])).get::<si::joule>()))),
             "SpeedLimitTrainSim::get_net_energy_res" => Ok(Ok(json!(o.get_net_energy_res(b(&a[0])).get::<si::joule>()))),
